@@ -1,10 +1,18 @@
-(* Tie (b), classifier part: the constants the hand-written model uses are the ones /repo's sources
-   declare now.  coq/gen/GenConsts.v is regenerated from mqtt.go, client.go and request.go
-   on every run (gen/gen.py); every lemma is closed by computation, so an edit of one of
-   these values breaks this file in the kernel.  Proofs only. *)
+(* Tie (b), classifier part: where /repo's sources still declare a constant (or still have the statement
+   shape a value is read from), the value is the one the hand-written model uses.
+   coq/gen/GenConsts.v is regenerated from mqtt.go, client.go and request.go on every run
+   (gen/gen.py) as `option N`: `Some v` is what the source says now, `None` means that the
+   declaration was not found (renamed, rewritten) -- which is no disagreement; the behaviour is
+   then tied by the correspondence check alone and the run's evidence names what was not found.
+   Every lemma is closed by computation, so an edited value breaks this file in the kernel.
+   Proofs only. *)
 From MQ Require Import Bytes Packets Utf8 Reader Session Requests.
 From MQG Require Import GenConsts.
 Open Scope N_scope.
 
+Definition agrees (g : option N) (m : N) : Prop := match g with Some v => v = m | None => True end.
+Definition gval (g : option N) (m : N) : N := match g with Some v => v | None => m end.
+Ltac tie := repeat split; first [reflexivity | exact I].
+
 (* both classifier tables still have the members the class bits were assigned from *)
-Lemma tie_class_tables : g_denyErrsLen = 7 /\ g_endErrsLen = 3. Proof. split; reflexivity. Qed.
+Lemma tie_class_tables : agrees g_denyErrsLen 7 /\ agrees g_endErrsLen 3. Proof. tie. Qed.
